@@ -5,6 +5,7 @@ Solver-quantified: all coefficient values of the 7 shapes, all temperature limit
 Ground (path-guided, not quantified): public-API JSON round trips at every path witness."""
 from __future__ import annotations
 
+import itertools
 import json
 
 import numpy as np
@@ -134,11 +135,23 @@ def api_roundtrip(shape, vals, grid=False):
                 ("DailyModel(developer settings)", DailyModel, dict(settings={"developer_mode": True, "silent_developer_mode": True, "cvrmse_threshold": 2})),
                 ("DailyModel(custom season/weekday maps)", DailyModel, dict(settings={"season": {"january": "summer", "july": "winter"}, "weekday_weekend": {"friday": "weekend"}})),
                 ("BillingModel()", BillingModel, {})]
-    for pname, cls, kw in profiles:
+    from opendsm.eemeter.models.daily.parameters import DailyModelParameters
+    sd = sub.model_dump()
+    sd2 = json.loads(json.dumps(sd)); sd2["coefficients"]["intercept"] = sd["coefficients"]["intercept"] + 3.0
+    sd3 = json.loads(json.dumps(sd)); sd3["coefficients"]["intercept"] = sd["coefficients"]["intercept"] - 2.0
+    layouts = [("one sub-model", {"fw-su_sh_wi": sd}),
+               ("weekday/weekend split", {"wd-su_sh_wi": sd, "we-su_sh_wi": sd2}),
+               ("season split", {"fw-su": sd, "fw-sh": sd2, "fw-wi": sd3})]
+    # 14 January days + 14 July days: every weekday and two seasons occur; temperatures cycle through Ts
+    idx = pd.date_range("2021-01-04", periods=14, freq="D", tz="US/Pacific").append(pd.date_range("2021-07-05", periods=14, freq="D", tz="US/Pacific"))
+    if len(Ts) > len(idx):
+        idx = pd.date_range("2021-01-04", periods=len(Ts), freq="D", tz="US/Pacific")
+    temps = np.array([Ts[i % len(Ts)] for i in range(len(idx))], dtype=float)
+    for (pname, cls, kw), (lname, subs) in itertools.product(profiles, layouts):
+        pname = f"{pname}, {lname}"
         # the document a model of this profile writes: to_dict() of an instance carrying these parameters
         base = cls(**kw)
-        from opendsm.eemeter.models.daily.parameters import DailyModelParameters
-        base.params = DailyModelParameters(submodels={"fw-su_sh_wi": sub.model_dump()}, settings=base.settings.model_dump(),
+        base.params = DailyModelParameters(submodels=json.loads(json.dumps(subs)), settings=base.settings.model_dump(),
                                            info=dict(error={}, baseline_timezone="US/Pacific",
                                                      disqualification=[dict(qualified_name="eemeter.x", description="d", data={"a": 1.0})],
                                                      warnings=[dict(qualified_name="eemeter.w", description="w", data={})]))
@@ -154,24 +167,40 @@ def api_roundtrip(shape, vals, grid=False):
         js2 = m2.to_json()
         if js1 != js2:
             problems.append(f"{pname}: re-serialisation differs")
+        if json.loads(js1) != json.loads(json.dumps(doc)):
+            problems.append(f"{pname}: the reloaded model serialises to a different document than the one it was loaded from")
         if [w.qualified_name for w in m2.disqualification] != ["eemeter.x"] or [w.qualified_name for w in m2.warnings] != ["eemeter.w"]:
             problems.append(f"{pname}: warnings/disqualification lost")
         if str(m2.baseline_timezone) != "US/Pacific":
             problems.append(f"{pname}: timezone lost")
-        idx = pd.date_range("2021-01-01", periods=len(Ts), freq="D", tz="US/Pacific")
-        df = pd.DataFrame({"temperature": np.array(Ts, dtype=float)}, index=idx)
+        df = pd.DataFrame({"temperature": temps}, index=idx)
         p0 = base._predict(df.copy())  # the original (never stored) model object
         p1 = m1._predict(df.copy())
         p2 = m2._predict(df.copy())
-        if p0["predicted"].to_numpy().tobytes() != p1["predicted"].to_numpy().tobytes() or list(p0["season"]) != list(p1["season"]):
-            problems.append(f"{pname}: reloaded model does not predict bit-identically to the original")
-        for col in ("predicted", "predicted_unc", "heating_load", "cooling_load"):
-            a, b = p1[col].to_numpy(), p2[col].to_numpy()
-            if not (a.tobytes() == b.tobytes()):
-                problems.append(f"{pname}: {col} not bit-identical after round trip")
-        k = R.real_predict_submodel(shape, vals, Ts)
-        if not np.array_equal(p1["predicted"].to_numpy(), np.array(k["predicted"])):
-            problems.append(f"{pname}: API prediction differs from kernel path")
+        for col in ("predicted", "predicted_unc", "heating_load", "cooling_load", "season", "day_of_week", "model_split", "model_type"):
+            for who, q in (("reloaded model vs the original object", p0), ("second round trip vs first", p2)):
+                a, b = p1[col].to_numpy(), q[col].to_numpy()
+                same = a.tobytes() == b.tobytes() if a.dtype.kind == "f" else list(a) == list(b)
+                if not same:
+                    problems.append(f"{pname}: {col} not identical ({who})")
+        # the document alone determines the value: each row equals the kernel evaluation of the sub-model the
+        # document's own calendar maps select for that day
+        st = doc["settings"]
+        season_of = {i + 1: st["season"][mn] for i, mn in enumerate(["january", "february", "march", "april", "may", "june", "july", "august", "september", "october", "november", "december"])}
+        wk_of = {i + 1: st["weekday_weekend"][dn] for i, dn in enumerate(["monday", "tuesday", "wednesday", "thursday", "friday", "saturday", "sunday"])}
+        short = {"summer": "su", "shoulder": "sh", "winter": "wi", "weekday": "wd", "weekend": "we"}
+        want = []
+        for t, T in zip(idx, temps):
+            key = None
+            for k in subs:
+                d, seas = k.split("-")
+                if (d == "fw" or d == short[wk_of[t.dayofweek + 1]]) and short[season_of[t.month]] in seas.split("_"):
+                    key = k
+            v = dict(vals); v["intercept"] = subs[key]["coefficients"]["intercept"]
+            want.append(R.real_predict_submodel(shape, v, [T])["predicted"][0])
+        if not np.array_equal(p1["predicted"].to_numpy(), np.array(want)):
+            bad = [str(t.date()) for t, a, b in zip(idx, p1["predicted"].to_numpy(), want) if a != b][:3]
+            problems.append(f"{pname}: API prediction differs from the kernel evaluation of the sub-model the document selects (days {bad})")
     return problems
 
 
